@@ -32,6 +32,9 @@ def make_frame(n: int, z_nulls: set, w_nulls: set, a_nulls: set, index_kind: str
     w = [numpy.nan if k in w_nulls else 20.0 + 2 * k for k in range(n)]
     a = [None if k in a_nulls else ["x", "y"][k % 2] for k in range(n)]
     d = {"z": numpy.array(z, dtype=float), "w": numpy.array(w, dtype=float), "A": pandas.Categorical(a, categories=["x", "y"])}
+    # the same null layouts in pandas' nullable extension dtypes (pd.NA instead of NaN)
+    d["q"] = pandas.array([pandas.NA if k in z_nulls else 30 + k for k in range(n)], dtype="Int64")
+    d["f"] = pandas.array([pandas.NA if k in w_nulls else bool(k % 2) for k in range(n)], dtype="boolean")
     if tag is not None:
         d["t"] = numpy.asarray(tag, dtype=float)
     return pandas.DataFrame(d, index=make_index(index_kind, n))
@@ -47,6 +50,8 @@ FORMULAS = {
     "t + hashed(A, levels=3) + z": {"z"},
     "t + C(A) + w": {"A", "w"},
     "t + z:A": {"z", "A"},
+    "t + q": {"q"},
+    "t ~ q + f": {"q", "f"},
 }
 
 
@@ -58,6 +63,10 @@ def null_rows(formula_vars: set, z_nulls, w_nulls, a_nulls) -> set:
         out |= set(w_nulls)
     if "A" in formula_vars:
         out |= set(a_nulls)
+    if "q" in formula_vars:
+        out |= set(z_nulls)
+    if "f" in formula_vars:
+        out |= set(w_nulls)
     return out
 
 
